@@ -147,6 +147,10 @@ func (a *pwaligner) Length() int {
 }
 
 func (a *pwaligner) fillMatrix() (err error) {
+	if a.seq1.Length() == 0 || a.seq2.Length() == 0 {
+		err = fmt.Errorf("cannot align an empty sequence")
+		return
+	}
 	switch a.algo {
 	case ALIGN_ALGO_ATG:
 		// We want to backtrack from the atg of the first sequence
